@@ -134,6 +134,9 @@ func (c *CheckCtx) addFunctionUnits(filter func(con *Contract) bool) {
 			if !filter(con) {
 				continue
 			}
+			if p == modPath+"/internal/scanner" && k == "(*Lexer).Lex" {
+				continue // the generated machine is verified by the scanner engine (addScan), not by E-VC
+			}
 			fn := c.W.lookupFunc(p, k)
 			if fn == nil {
 				c.Extra = append(c.Extra, &Obligation{Name: shortPkg(p) + "." + k + "/contract/function-exists", Class: "contract", Status: "sat",
